@@ -22,8 +22,8 @@ Proof.
   cbn [illegal]. unfold has_state in Hs. destruct (obj_get (states_of m) name) as [[| | | | | |st]|] eqn:E; try discriminate.
   destruct d as [|d]; [discriminate|]. cbn [wf] in W. destruct (start_of m) as [s0|] eqn:S0; [|discriminate].
   apply andb_prop in W as (W0 & W1). pose proof (proj1 (forallb_forall _ _) W1 (name, JObj st) (obj_get_in _ _ _ E)) as K. cbn [snd] in K.
-  apply andb_prop in K as (K1 & K2). unfold state_ok in K1. cbv zeta in K1. apply andb_prop in K1 as (K1 & K1d). apply andb_prop in K1 as (K1 & K1c). apply andb_prop in K1 as (K1a & K1b).
-  rewrite K1a, K1b. cbn [negb orb].
+  apply andb_prop in K as (K1 & K2). unfold state_ok in K1. cbv zeta in K1. apply andb_prop in K1 as (K1 & Kbd). apply negb_true_iff in Kbd. apply andb_prop in K1 as (K1 & K1d). apply andb_prop in K1 as (K1 & K1c). apply andb_prop in K1 as (K1a & K1b).
+  rewrite K1a, K1b, Kbd, andb_false_r. cbn [negb orb].
   assert (existsb (fun b => match start_of b with Some s1 => illegal f b s1 | None => true end) (submachines st) = false) as ->.
   { destruct (existsb _ _) eqn:X; [|reflexivity]. apply existsb_exists in X as (b & Hb & Xb).
     pose proof (proj1 (forallb_forall _ _) K2 b Hb) as Wb. destruct d as [|d']; [discriminate|].
